@@ -9,6 +9,7 @@ mod fam_clihostile;
 mod fam_clitrunc;
 mod fam_chunklist;
 mod fam_concat;
+mod fam_append;
 mod fam_codec;
 mod fam_edit;
 mod fam_extract;
@@ -80,6 +81,7 @@ fn main() {
         "cli-truncate" => fam_clitrunc::cli_truncate(&mut ctx),
         "chunk-list" => fam_chunklist::chunk_list(&mut ctx),
         "concat" => fam_concat::concat(&mut ctx),
+        "append-bytes" => fam_append::append_bytes(&mut ctx),
         "cli-hostile" => fam_clihostile::cli_hostile(&mut ctx),
         "sched" => fam_sched::sched(&mut ctx),
         "fault" => fam_fault::fault(&mut ctx),
